@@ -1808,7 +1808,8 @@ func ExecDistinct(query *Query, current []any) ([]any, error) {
 	slice := make([]any, 0)
 	for _, item := range current {
 		sha256 := sha256.New()
-		_, err := sha256.Write([]byte(fmt.Sprintf("%v", item)))
+		// %#v keeps strings quoted: the text "1" and the number 1 are different values
+		_, err := sha256.Write([]byte(fmt.Sprintf("%#v", item)))
 		if err != nil {
 			return nil, err
 		}
